@@ -200,11 +200,19 @@ def run(ctx):
         jobs.append((tag, yp, []))
     # a C library (Fortran binds the user's functions directly) whose fortran_generic entries change the TYPE and the RANK of an
     # argument: every extra interface bound to the same C function must still declare the C function's own parameter types
-    open(os.path.join(gd, "gentot.h"), "w").write("double total(const double *values, int nvalues);\nvoid scale(float *values, int nvalues, float by);\n")
+    open(os.path.join(gd, "gentot.h"), "w").write("double total(const double *values, int nvalues);\nvoid scale(float *values, int nvalues, float by);\n"
+                                                  "struct Particle { int id; long cookie; double mass; };\ntypedef struct Particle Particle;\n"
+                                                  "void fill_particle(Particle *p, int id, double mass);\ndouble particle_mass(const Particle *p);\n")
     totlib = {"library": "gentot", "language": "c", "c_header": "gentot.h", "options": {"wrap_python": False, "wrap_lua": False},
               "declarations": [{"decl": "double total(const double *values, int nvalues)",
                                 "fortran_generic": [{"decl": "(const float *values+rank(1))"}, {"decl": "(const double *values+rank(1))"},
                                                     {"decl": "(const double *values+rank(2))"}]},
+                               # a struct given member by member, one member without a Fortran API of its own: the bind(C) derived
+                               # type still has every member of the C struct, in order
+                               {"decl": "struct Particle", "declarations": [{"decl": "int id"}, {"decl": "long cookie", "options": {"wrap_fortran": False}},
+                                                                            {"decl": "double mass"}]},
+                               {"decl": "void fill_particle(Particle *p +intent(out), int id, double mass)"},
+                               {"decl": "double particle_mass(const Particle *p)"},
                                {"decl": "void scale(float *values +intent(inout), int nvalues, float by)",
                                 "fortran_generic": [{"decl": "(float *values+rank(1)+intent(inout))"}, {"decl": "(float *values+rank(2)+intent(inout))"}]}]}
     yp = os.path.join(gd, "gen-c-generic.yaml")
